@@ -60,10 +60,10 @@ def trace_noise(n, instrs, procs):
     def names(local):
         return [(p["name"], list(p["sites"]), float(p["strength"])) for p in local.processes]
 
-    def dis(state, local, dt, sim_params):
+    def dis(state, local, dt, sim_params, *xa, **xk):
         events.append(("D", float(dt), names(local)))
 
-    def sto(state, local, dt, sim_params, rng=None):
+    def sto(state, local, dt, sim_params, rng=None, *xa, **xk):
         events.append(("J", float(dt), names(local)))
         return state
 
